@@ -1,6 +1,8 @@
-CONSTANTS Mags = {1, 2} Pages <- PagesA Rows = {1, 24} Cids = {1, 2} Flofs = {1} FaultKinds = {"hpage", "hctrl", "rpar", "mrag"} MaxFaults = 2 MaxPk = 6
+CONSTANTS Mags = {1, 8} Pages <- PagesMix Rows = {1} Cids = {1, 2} Nats = {0} Flofs = {} Progs <- ProgsAB
+          HdrFaults <- HdrAll RowFaults <- RowFew PktFaults <- PktAll TripFaults = {1, 4, 7, 13} MaxFaults = 2 MaxPk = 5
 SPECIFICATION Spec
+VIEW mcview
 CONSTRAINT Bounded
-INVARIANTS OneVersion OnlyTransmitted
-PROPERTIES KeepsRows BadRowContained
+INVARIANTS OneVersion RollingOne OnlyTransmitted EnhNotMisplaced RuleRest
+PROPERTIES KeepsRows BadRowContained AddressFaultNothing HeaderFaultOnlyAbandons
 CHECK_DEADLOCK FALSE
